@@ -163,7 +163,7 @@ def pslq(ctx, x, tol=None, maxcoeff=1000, maxsteps=100, verbose=False):
     # a single wrong index can be painful.)
     # (A relation is invariant under scaling of x, the fixed-point format
     # is not: the largest entry is brought to [1/2, 1).)
-    x = [ctx.mpf(xk) for xk in x]
+    x = [ctx.convert(xk) for xk in x]
     scale = [ctx.mag(xk) for xk in x if xk and ctx.isfinite(xk)]
     if scale:
         x = [ctx.ldexp(xk, -max(scale)) for xk in x]
@@ -432,7 +432,14 @@ def findpoly(ctx, x, n=1, **kwargs):
         return [1, 0]
     xs = [ctx.mpf(1)]
     for i in range(1,n+1):
-        xs.append(x**i)
+        # (with the guard bits pslq works with: the relation has to hold
+        # for the powers of x, not for their rounded values)
+        orig = ctx.prec
+        try:
+            ctx.prec = orig + 60
+            xs.append(x**i)
+        finally:
+            ctx.prec = orig
         a = ctx.pslq(xs, **kwargs)
         if a is not None:
             return a[::-1]
